@@ -121,7 +121,42 @@ fn check(c: &Case, ctx: &Ctx, route: Route) -> Outcome {
     let mut files_a = Vec::new();
     let mut files_b_unperm = Vec::new();
     let mut bytes_differ = false;
-    for i in 0..n {
+    // a third of the command-line cases hand the same records over as reads: every record five times (the
+    // documented default --min-count) with top qualities, plus one read seen once, which must be filtered out
+    // from the plain and from the compressed file alike (what a file is is decided by its content)
+    let as_reads = matches!(route, Route::Cli) && (n + c.k / 2 + m.orig[0].len()) % 3 == 0;
+    if as_reads {
+        let reads_of = |recs: &[Vec<u8>], i: usize| -> Vec<(Vec<u8>, Vec<u8>)> {
+            let mut out = Vec::new();
+            for r in recs.iter().filter(|r| !r.is_empty()) {
+                for _ in 0..5 {
+                    out.push((r.clone(), vec![b'I'; r.len()]));
+                }
+            }
+            let noise = gen::filler(c.k, 11 + i);
+            out.insert(out.len() / 2, (noise.clone(), vec![b'I'; noise.len()]));
+            out
+        };
+        for i in 0..n {
+            let fa = dir.join(format!("a{i}.fastq"));
+            cli::write_fastq(&fa, &reads_of(&m.orig[i], i));
+            files_a.push((names[i].clone(), cli::p(&fa)));
+            let fb = dir.join(format!("b{i}.fastq"));
+            cli::write_fastq(&fb, &reads_of(&m.trans[i], i));
+            if std::fs::read(&fa).ok() != std::fs::read(&fb).ok() {
+                bytes_differ = true;
+            }
+            if c.t.gzip {
+                let fz = dir.join(format!("b{i}.fastq{}", [".gz", ".gzip", ".gz", ".bgz"][(i + c.k / 2 + c.t.width.unwrap_or(0) as usize) % 4]));
+                match (i + c.k / 2) % 4 { 0 => cli::gzip_members(&fb, &fz, 2), 1 => cli::gzip_members(&fb, &fz, 3), _ => cli::gzip(&fb, &fz) }
+                bytes_differ = true;
+                files_b_unperm.push((names[i].clone(), cli::p(&fz)));
+            } else {
+                files_b_unperm.push((names[i].clone(), cli::p(&fb)));
+            }
+        }
+    }
+    for i in if as_reads { n..n } else { 0..n } {
         let fa = dir.join(format!("a{i}.fa"));
         cli::write_fasta_auto(&fa, &m.orig[i], None);
         files_a.push((names[i].clone(), cli::p(&fa)));
@@ -134,7 +169,7 @@ fn check(c: &Case, ctx: &Ctx, route: Route) -> Outcome {
             bytes_differ = true;
         }
         if c.t.gzip {
-            let fz = dir.join(format!("b{i}.fa.gz"));
+            let fz = dir.join(format!("b{i}.fa{}", [".gz", ".gzip", ".gz", ".bgz"][(i + c.k / 2 + c.t.width.unwrap_or(0) as usize) % 4]));
             // half of the compressed files consist of two or three gzip members (cut anywhere, also inside a record)
             match (i + c.k / 2) % 4 { 0 => cli::gzip_members(&fb, &fz, 2), 1 => cli::gzip_members(&fb, &fz, 3), _ => cli::gzip(&fb, &fz) }
             bytes_differ = true;
@@ -197,10 +232,11 @@ fn check(c: &Case, ctx: &Ctx, route: Route) -> Outcome {
             let mut cl = vec![];
             if c.rc && !c.t.rc_mask.is_empty() && c.t.rc_mask.iter().any(|x| *x) { cl.push("revcomp_records"); }
             if !c.t.rec_perm.is_empty() { cl.push("permute_records"); }
-            if c.t.width.is_some() { cl.push("rewrap"); }
+            if c.t.width.is_some() && !as_reads { cl.push("rewrap"); }
             if !c.t.case_mask.is_empty() { cl.push("case_flip"); }
             if c.t.gzip { cl.push("gzip"); }
-            if c.t.crlf { cl.push("crlf"); }
+            if as_reads { cl.push("as_reads_x5_plus_singleton"); }
+            if c.t.crlf && !as_reads { cl.push("crlf"); }
             if m.sample_perm.iter().enumerate().any(|(x, y)| x != *y) { cl.push("permute_samples"); }
             if c.k >= 33 { cl.push("k>=33"); }
             pass(bytes_differ && nwin >= 2, key_of(&(c.k, c.rc, &m.orig, &m.trans, &m.sample_perm, c.t.gzip, c.t.width)), cl)
